@@ -20,6 +20,7 @@ type ovStage struct {
 	Vars  map[string]string `json:"vars"` // nil: stage.Variables == nil
 	Dir   string            `json:"dir"`
 	DelUs int               `json:"delay_us"`
+	Allow bool              `json:"allow"` // the stage allows failure
 }
 
 type ovCase struct {
@@ -35,10 +36,21 @@ type ovSnap struct {
 	Env  map[string]string `json:"env"`
 	Vars map[string]string `json:"vars"`
 	Dir  string            `json:"dir"`
+	Rest string            `json:"rest"` // everything else the task is made of
+}
+
+// restOf: name, commands, hooks, condition, variations, timeout, allow_failure, exportAs, context, interactive
+func restOf(t *task.Task) string {
+	to := "none"
+	if t.Timeout != nil {
+		to = t.Timeout.String()
+	}
+	return fmt.Sprintf("%s|%q|%q|%q|%q|%v|%s|%v|%s|%s|%v", t.Name, t.Commands, t.Before, t.After, t.Condition, t.Variations, to, t.AllowFailure, t.ExportAs, t.Context, t.Interactive)
 }
 
 type ovObs struct {
 	ID      int      `json:"id"`
+	Rest0   string   `json:"rest0"`   // the task's own "everything else", before any use
 	P1      []ovSnap `json:"p1"`      // in the order the executions began
 	Direct1 ovSnap   `json:"direct1"` // direct run of the task after pipeline 1
 	P2      []ovSnap `json:"p2"`
@@ -65,7 +77,7 @@ func toStrMap(c variables.Container) map[string]string {
 }
 
 func (r *recRunner) Run(t *task.Task) error {
-	s := ovSnap{Env: toStrMap(t.Env), Vars: toStrMap(t.Variables), Dir: t.Dir}
+	s := ovSnap{Env: toStrMap(t.Env), Vars: toStrMap(t.Variables), Dir: t.Dir, Rest: restOf(t)}
 	r.mu.Lock()
 	r.snaps = append(r.snaps, s)
 	d := r.delay[s.Env["VK"]]
@@ -94,7 +106,7 @@ func runOvPipeline(t *task.Task, sts []ovStage, rec *recRunner) error {
 		for _, d := range s.Deps {
 			deps = append(deps, fmt.Sprintf("s%d", d))
 		}
-		st := &scheduler.Stage{Name: fmt.Sprintf("s%d", i), Task: t, DependsOn: deps, Dir: s.Dir}
+		st := &scheduler.Stage{Name: fmt.Sprintf("s%d", i), Task: t, DependsOn: deps, Dir: s.Dir, AllowFailure: s.Allow}
 		if s.Env != nil {
 			st.Env = variables.FromMap(s.Env)
 		}
@@ -140,6 +152,14 @@ func stageovEngine(raw json.RawMessage) (res interface{}, err error) {
 	t.Env = variables.FromMap(c.Env)
 	t.Variables = variables.FromMap(c.Vars)
 	t.Dir = c.Dir
+	// the rest of the task: every field has a value of its own, none of them the zero value
+	t.Commands = []string{"true", "echo shared"}
+	t.Before, t.After, t.Condition = []string{"echo b"}, []string{"echo a"}, "true"
+	t.Variations = []map[string]string{{"V": "1"}, {"V": "2"}}
+	to := 7 * time.Second
+	t.Timeout = &to
+	t.ExportAs, t.Context = "SHARED_OUT", "local"
+	obs.Rest0 = restOf(t)
 	rec := &recRunner{delay: map[string]time.Duration{}}
 	if e := runOvPipeline(t, c.Stages, rec); e != nil {
 		obs.Err = e.Error()
